@@ -73,6 +73,7 @@ type Unit struct {
 	immutableGlobal map[string]bool
 	recoverHook func() *V
 	sentinels []T
+	embTags   map[string]int
 	dry       int
 	nbind     int
 	defDeps   map[string]termDeps
@@ -344,6 +345,10 @@ func (u *Unit) emb(structKey, field string, ref T) T {
 		inv := u.declareFun("inv!"+name, []Sort{SInt}, SInt)
 		kind := u.declareFun("embkind", []Sort{SInt}, SInt)
 		tag := len(u.embFuncs)
+		if u.embTags == nil {
+			u.embTags = map[string]int{}
+		}
+		u.embTags[name] = tag
 		u.emitDecl(fmt.Sprintf("(assert (forall ((p Int)) (! (and (< (%s p) 0) (= (%s (%s p)) p) (= (%s (%s p)) %d) (= (root (%s p)) (root p))) :pattern ((%s p)))))", q, inv, q, kind, q, tag, q, q))
 	}
 	return app(SInt, q, ref)
@@ -655,4 +660,26 @@ func (u *Unit) sidx(off, i T) T {
 		u.emitDecl("(assert (forall ((o Int) (k Int)) (! (= (sidx o k) (+ o k)) :pattern ((sidx o k)))))")
 	}
 	return app(SInt, "sidx", off, i)
+}
+
+// DeadOK reports whether the contract of the unit's function declares the
+// given cover point as genuinely unreachable code (opt dead = "return#3 ...").
+func (u *Unit) DeadOK(obName string) bool {
+	ct := u.eng.Specs.Contracts[u.name]
+	if ct == nil {
+		return false
+	}
+	for _, d := range strings.Fields(ct.Opts["dead"]) {
+		if strings.HasSuffix(obName, "/cover/"+d) {
+			u.note("declared dead code in " + u.name + ": " + d)
+			return true
+		}
+	}
+	return false
+}
+
+// embTag returns the kind tag of the embedding of field in structKey objects.
+func (u *Unit) embTag(structKey, field string) int {
+	u.emb(structKey, field, intLit(0))
+	return u.embTags["emb!"+structKey+"."+field]
 }
